@@ -2,9 +2,9 @@
    The model is instantiated at Qc; floats of the implementation arrive as exact rationals. *)
 From Coq Require Import Arith List Bool ZArith QArith Qcanon String.
 From AV.lib Require Import Sums QcInst.
-From AV.C06 Require Base Model.
+From AV.C06 Require Base.
 From AV.gen Require Import C06_Gen.
-From AV.C11 Require Import Base Model.
+From AV.C11 Require Import Base Model Units.
 From AV.gen Require Import C11_Gen.
 Import ListNotations.
 Local Open Scope nat_scope.
@@ -95,7 +95,7 @@ Definition unit0 : AV.C06.Base.unit := AV.C06.Base.mkUnit "" [] q0 q0.
 Definition unit_named (k nm : string) : AV.C06.Base.unit :=
   match find (fun u => String.eqb (AV.C06.Base.uname u) nm) (lookup_class k classes) with Some u => u | None => unit0 end.
 Definition unit_alias (k al : string) : AV.C06.Base.unit :=
-  match AV.C06.Model.find_unit (lookup_class k classes) al with Some u => u | None => unit0 end.
+  match find_unit (lookup_class k classes) al with Some u => u | None => unit0 end.
 
 Definition check_mass_weighted (n : nat) (un : string) (H : list (list Qc)) (masses_amu : list Qc)
                                (sqv : list (list Qc)) (expect : list (list Qc)) : bool :=
@@ -113,3 +113,33 @@ Definition check_mass_weighted (n : nat) (un : string) (H : list (list Qc)) (mas
   negb (String.eqb (AV.C06.Base.uname j) "") && negb (String.eqb (AV.C06.Base.uname kg) "") &&
   negb (String.eqb (AV.C06.Base.uname u) "") &&
   closeM tol (list_of_mat d (mass_weighted (envT sqt q0) conv_h conv_m (mat_of_list H) m)) expect.
+
+(* normal_modes_proj: D = _proj_matrix and S_bar = eigh eigenvectors of the implementation (oracles); the norms
+   np.linalg.norm(mode) of the implementation serve as the sqrt table at the arguments the model produces *)
+Definition check_modes (d ntr : nat) (D Sbar : list (list Qc)) (norms : list Qc) (expect : list (list Qc)) : bool :=
+  let Dm := mat_of_list D in
+  let Sm := mat_of_list Sbar in
+  let raw := fun i => vtab d (mode_raw EQ0 d ntr Dm Sm i) in
+  let sqt := map (fun i => (dot Qc q0 Qcplus Qcmult d (raw i) (raw i), nth i norms q0)) (seq 0 d) in
+  let ET := envT sqt q0 in
+  closeM tol (map (fun i => list_of_vec d (mode ET d ntr Dm Sm i)) (seq 0 d)) expect.
+
+(* _proj_matrix: the first three columns of D are (up to sign) the normalised mass-weighted translation vectors;
+   sqm = np.sqrt(mass_i), nrm = np.linalg.norm of the three mass-weighted vectors *)
+Definition close_pm (a b : list Qc) : bool := closeL tol a b || closeL tol (map Qcopp a) b.
+Definition check_proj_cols (n : nat) (masses sqm ex ey ez nrm : list Qc) (cols : list (list Qc)) : bool :=
+  let d := 3 * n in
+  let m := vec_of_list masses in
+  let t0 := envT (combine masses sqm) q0 in
+  let mw := fun e => vtab d (mw_vec t0 m (tile t0 (vec_of_list e))) in
+  let es := [ex; ey; ez] in
+  let sqt := app (combine masses sqm) (map (fun k => (dot Qc q0 Qcplus Qcmult d (mw (nth k es [])) (mw (nth k es [])), nth k nrm q0)) (seq 0 3)) in
+  let ET := envT sqt q0 in
+  forallb (fun k => close_pm (list_of_vec d (normalised ET d (mw_vec ET m (tile ET (vec_of_list (nth k es [])))))) (nth k cols []))
+          (seq 0 3).
+
+(* two successive accesses of frequencies_proj on ONE object while Config.freq_scale_factor goes from s1 to s2 *)
+Definition check_twice (sqt : list (Qc * Qc)) (pi s1 s2 : Qc) (n : nat) (collinear : bool)
+                       (lambdas r1 r2 : list Qc) : bool :=
+  let '(m1, m2) := freqs_twice (tab_lookup sqt) pi s1 s2 n collinear lambdas in
+  closeL tol m1 r1 && closeL tol m2 r2.
